@@ -24,13 +24,15 @@ struct Cfg {
     fdt_same_fec: bool,
     /// one packet per 5 ms poll instead of draining: FDT repetitions land in the middle of object transfers
     paced: bool,
+    /// the second object is empty (zero bytes)
+    with_empty: bool,
 }
 
 impl Cfg {
     fn name(&self) -> String {
         format!("{}|ib{}|ic{}|{}|n{}|{}|{}|mf{}|il{}|ff{}|{}", self.fec.name(), self.inband_fti, self.inband_cenc, self.cenc.name(), self.nobj,
             if self.interval { "interval" } else { "delay" }, if self.full_fdt { "full" } else { "obt" }, self.small_fdt_symbols, self.interleave, self.fdt_same_fec,
-            if self.paced { "paced" } else { "drain" })
+            if self.paced { if self.with_empty { "paced+empty" } else { "paced" } } else if self.with_empty { "drain+empty" } else { "drain" })
     }
 }
 
@@ -72,6 +74,7 @@ fn build(cfg: &Cfg, seed: u64) -> Result<Built, String> {
             Fec::Raptor => 16 * (5 + 5 * k), // full symbols, blocks of 5
             _ => 16 * (4 + 3 * k) - 5,
         };
+        let len = if cfg.with_empty && k == 1 { 0 } else { len };
         let mut o = ObjSpec::new(gen_bytes(&mut rng, len), &format!("file:///c/{}", k));
         o.oti = Some(obj_oti.clone());
         o.cenc = cfg.cenc;
@@ -200,10 +203,19 @@ fn main() {
                                 interleave: 1 + ((v / 2) % 3) as u8,
                                 fdt_same_fec: v % 4 == 3 && fec != Fec::Raptor,
                                 paced: false,
+                                with_empty: false,
                             });
                             let mut paced = cfgs.last().unwrap().clone();
                             paced.paced = true;
-                            cfgs.push(paced);
+                            cfgs.push(paced.clone());
+                            if paced.nobj >= 2 && v % 2 == 0 {
+                                // same configuration with an empty second object
+                                let mut e = paced.clone();
+                                e.with_empty = true;
+                                cfgs.push(e.clone());
+                                e.paced = false;
+                                cfgs.push(e);
+                            }
                         }
                     }
                 }
